@@ -328,6 +328,42 @@ def main(tier: str) -> int:
             chk.fail("the operator probabilities are not updated once in every generation",
                      {"optimizer": cn, "generations_per_fit": 4, "updates_in_first_fit": first, "updates_in_second_fit": calls2["n"] - first},
                      {"optimizer": cn, "clause": "every_generation_refit"})
+    # ---- the TRANSLATED SelfCGA._get_new_proba (TFV/Generated/Src/SelfCGA_get_new_proba.lean, read through TFV.Model.NpQ) evaluated by Lean
+    #      against the real method on small dyadic tables (the winner given as a key to the code, as its position to the model)
+    import random as _pyrandom
+    import subprocess
+    from thefittest.optimizers import SelfCGA as _SelfCGA
+    prng = _pyrandom.Random(chk.seed + 77)
+    pcases = []
+    for _ in range(24 if tier == "quick" else 200):
+        z_ = prng.randint(1, 5)
+        raw_ = [prng.randint(1, 8) for _ in range(z_)]
+        tab_ = [v / 32 for v in raw_]
+        pcases.append((tab_, prng.randrange(z_), prng.choice([1, 2, 4]), prng.choice([2, 4, 8]), prng.choice([0, 1, 2, 4]) / 32))
+    q32 = lambda v: "[" + ", ".join("(%d : Rat) / 32" % int(round(x * 32)) for x in v) + "]"   # noqa: E731
+    plines = ["import TFV.Generated.Src.SelfCGA_get_new_proba", "open TFV TFV.Generated.Src",
+              "def showQ : Option (List Rat) → String | none => \"none\" | some v => toString (v.map fun q => (q.num, q.den))"]
+    for tab_, w_, K_, it_, thr_ in pcases:
+        plines.append("#eval IO.println (showQ (SelfCGA_get_new_proba %d %d %s %d ((%d : Rat) / 32)))" % (K_, it_, q32(tab_), w_, round(thr_ * 32)))
+    paudit = C.LEAN / "TFV" / "Audit" / "C14_np.lean"
+    paudit.parent.mkdir(parents=True, exist_ok=True)
+    paudit.write_text("\n".join(plines) + "\n")
+    with C.LeanLock():
+        ppr = subprocess.run(["lake", "env", "lean", str(paudit.relative_to(C.LEAN))], cwd=C.LEAN, capture_output=True, text=True, timeout=900)
+    pgot = [l.strip() for l in ppr.stdout.splitlines() if l.strip()]
+    chk.obligation("the translated SelfCGA._get_new_proba evaluates (lake env lean TFV/Audit/C14_np.lean)", ppr.returncode == 0 and len(pgot) == len(pcases), (ppr.stdout + ppr.stderr)[-600:])
+    if ppr.returncode == 0 and len(pgot) == len(pcases):
+        import re as _re
+        for (tab_, w_, K_, it_, thr_), g in zip(pcases, pgot):
+            so_ = _SelfCGA(fitness_function=lambda x: np.sum(x, axis=1, dtype=np.float64), iters=it_, pop_size=4, str_len=6, K=K_)
+            names_ = ["op%d" % i for i in range(len(tab_))]
+            with np.errstate(all="ignore"):
+                real = [float(v) for v in so_._get_new_proba(dict(zip(names_, tab_)), names_[w_], thr_).values()]
+            vals = None if g == "none" else [int(a) / int(b) for a, b in _re.findall(r"\((-?\d+), (\d+)\)", g)]
+            chk.count("np_kernel_get_new_proba")
+            same = vals is not None and len(vals) == len(real) and all(C.close(a, b, 1e-9, 1e-12) for a, b in zip(real, vals))
+            (chk.agree("np_kernel:get_new_proba") if same else
+             chk.disagree("np_kernel:get_new_proba", {"input": {"table": tab_, "winner": w_, "K": K_, "iters": it_, "threshold": thr_}, "impl": real, "model": g}))
     try:
         outs = C.lean_driver([json.dumps(o) for o in ops])
     except Exception as e:
